@@ -167,13 +167,16 @@ def check(run: Run) -> None:
     run.require(ive is not None, "is_vector_expr not found")
     run.ob("Q5", "product-of-vectors-refused")
     mul_if = next((s_ for s_ in ive.body if isinstance(s_, ast.If) and isinstance(s_.test, ast.Call) and dotted(s_.test.func) == "isinstance" and dotted(s_.test.args[1]) in ("SymMul", "Mul")), None)
-    good = False
-    if mul_if is not None:
-        raises = [x for x in ast.walk(mul_if) if isinstance(x, ast.Raise)]
-        loops = [x for x in ast.walk(mul_if) if isinstance(x, ast.For) and dotted(x.iter) == f"{dotted(mul_if.test.args[0])}.args"]
-        early_true = any(isinstance(x, ast.Return) and isinstance(x.value, ast.Constant) and x.value.value is True for lp in loops for s_ in lp.body for x in ast.walk(s_))
-        counted = any(isinstance(x, ast.AugAssign) and isinstance(x.op, ast.Add) for lp in loops for s_ in lp.body for x in ast.walk(s_))
-        good = bool(raises) and bool(loops) and counted and not early_true
+    run.require(mul_if is not None, "is_vector_expr: the branch for products not found")
+    raises = [x for x in ast.walk(mul_if) if isinstance(x, ast.Raise)]
+    argsname = f"{dotted(mul_if.test.args[0])}.args"
+    loops = [x for x in ast.walk(mul_if) if isinstance(x, ast.For) and dotted(x.iter) == argsname]
+    comps = [g for x in ast.walk(mul_if) if isinstance(x, (ast.ListComp, ast.GeneratorExp, ast.SetComp)) for g in x.generators if dotted(g.iter) == argsname]
+    early_true = any(isinstance(x, ast.Return) and isinstance(x.value, ast.Constant) and x.value.value is True for lp in loops for s_ in lp.body for x in ast.walk(s_))
+    counted = any(isinstance(x, ast.AugAssign) and isinstance(x.op, ast.Add) for lp in loops for s_ in lp.body for x in ast.walk(s_))
+    good = bool(raises) and not early_true
+    if good and not (counted or comps):
+        raise AnalysisError("C16: is_vector_expr refuses some products, but how it counts the vector factors is not understood")
     if not good:
         run.violate("Q5", "symplyphysics.core.experimental.vectors:is_vector_expr:product", vm, ive,
                     "is_vector_expr no longer counts the vector factors of a product over all its arguments and raises for two or more: a*b*x passes as a vector expression "
